@@ -304,6 +304,18 @@ impl RequestFilter for VetoFilter {
     }
 }
 
+/// Vetoes every request from any of the listed IPs.
+#[derive(Clone, Debug)]
+pub struct VetoIps {
+    pub ips: Vec<Ipv4Addr>,
+}
+
+impl RequestFilter for VetoIps {
+    fn allow_request(&self, _request: &RequestSpecific, from: SocketAddrV4) -> bool {
+        !self.ips.contains(from.ip())
+    }
+}
+
 #[derive(Clone, Debug)]
 pub struct SrvCfg {
     pub name: &'static str,
